@@ -107,6 +107,7 @@ def run(chk):
     plan = []
     model_dist = []
     impl_nontrivial = []
+    normal_pairs = []     # (query on the world with the shortcuts switched off = the definition, same query on the world as built by a user)
     for wi in range(50 if quick else 600):
         rng.seed("%d/c06-1/%d" % (chk.seed, wi))      # every world has its own stream: families do not disturb each other
         kind = rng.choice(["subducting plate", "fault"])
@@ -148,6 +149,7 @@ def run(chk):
             f["max depth"] = float(round(f["min depth"] + rng.uniform(0.3, 0.8) * total * math.sin(segs[0][1])))
             m0, mx = f["min depth"], f["max depth"]
         slot = cs.add_world(wj)
+        slot_n = cs.add_world(wj, model=False)       # the same world as a user builds it: acceleration shortcuts on
         lf_ml = cs.worlds[slot][2].line_terms.get("line") if cs.model_ok[slot] else None
         for qi in range(30):
             t = rng.uniform(-0.05, 1.05)
@@ -178,6 +180,7 @@ def run(chk):
                          "let () = out_planar (planar_distance num %s %s %s)" % (pcs, common.ml(u), common.ml(v)),
                          {"kind": "dist", "slot": slot, "world": wj, "pos": [x, y, TOP - d], "depth": d})
             i_t = cs.p3(slot, pos, d, [[4, 0, 0], [2, 0, 0]])
+            normal_pairs.append((i_t, cs.p3(slot_n, pos, d, [[4, 0, 0], [2, 0, 0]])))
             if lf_ml is not None:
                 # the Gallina model of distance_point_from_curved_planes (SlabModel.v), bit for bit
                 i_m = cs.raw("dist %d %s %s %s %s line" % (slot, fhex(x), fhex(y), fhex(TOP - d), fhex(d)),
@@ -207,14 +210,47 @@ def run(chk):
         elif u_ < 0.5:    # along the equator
             f["coordinates"] = [[c0[0], 0.0], [round(c0[0] + rng.choice([-1, 1]) * rng.uniform(3, 12), 1), 0.0]]
             f["dip point"] = [c0[0], rng.choice([-20.0, 20.0])]
+        polar = wi % 4 == 1
+        if polar:
+            # a long, shallow slab or fault hanging from a meridional trench at high latitude, dipping east or west: towards its
+            # tip at the high-latitude end its horizontal reach spans many more degrees of longitude than at the other end
+            sgn_lat = rng.choice([-1, 1])
+            lat0 = rng.uniform(45, 60)
+            lat1 = lat0 + rng.uniform(8, 16)
+            lon0 = rng.uniform(-140, 140)
+            f["coordinates"] = [[round(lon0, 1), round(sgn_lat * lat0, 1)], [round(lon0, 1), round(sgn_lat * lat1, 1)]]
+            # three out of four dip towards the side on which the reach in longitude grows fastest relative to the low-latitude
+            # end of the trench (west in the north, east in the south), one towards the other side
+            side0 = (-sgn_lat if (wi // 4) % 4 != 3 else sgn_lat)
+            f["dip point"] = [round(lon0 + side0 * 35, 1), round(sgn_lat * (lat0 + lat1) / 2, 1)]
+            f.pop("max depth", None)
+            f.pop("min depth", None)
+            f["segments"] = [{"length": float(round(rng.uniform(5e5, 1.0e6))), "thickness": [float(round(rng.uniform(5e4, 1.0e5)))],
+                              "angle": [float(round(rng.uniform(6, 16), 1))]}]
         wj["features"] = [f]
         slot = cs.add_world(wj)
+        slot_n = cs.add_world(wj, model=False)       # the same world as a user builds it: acceleration shortcuts on
         lf_ml = cs.worlds[slot][2].line_terms.get("line") if cs.model_ok[slot] else None
         for qi in range(25):
             q, d = line_query(rng, wj, True, f, spread=rng.choice([0.3, 0.6, 1.2]))
+            if polar and qi % 4 != 0:
+                # inside the slab / fault next to its tip, near the high-latitude end of the trench
+                from qgen import cart_point
+                sg = f["segments"][0]
+                th = math.radians(sg["angle"][0])
+                radius = wj.get("coordinate system", {}).get("radius", 6371000.0)
+                c1 = f["coordinates"][1]
+                lat = c1[1] - math.copysign(rng.uniform(0.05, 2.0), c1[1])
+                al = rng.uniform(0.8, 0.995) * sg["length"]
+                off = (rng.uniform(-0.45, 0.3) if f["model"] == "fault" else rng.uniform(0.05, 0.6)) * sg["thickness"][0]
+                reach = al * math.cos(th) - off * math.sin(th)
+                side = 1.0 if f["dip point"][0] > c1[0] else -1.0
+                lon = c1[0] + side * math.degrees(reach / (radius * math.cos(math.radians(lat))))
+                d = float(round(max(0.0, al * math.sin(th) + off * math.cos(th) + rng.choice([0.0, 1.0]) * reach * reach / (2 * radius))))
+                q = cart_point(True, lon, lat, d, radius, TOP)
             if d < 0:
                 continue
-            cs.p3(slot, q, d, [[4, 0, 0], [2, 0, 0]])
+            normal_pairs.append((cs.p3(slot, q, d, [[4, 0, 0], [2, 0, 0]]), cs.p3(slot_n, q, d, [[4, 0, 0], [2, 0, 0]])))
             if lf_ml is not None:
                 i_m = cs.raw("dist %d %s %s %s %s line" % (slot, fhex(q[0]), fhex(q[1]), fhex(q[2]), fhex(d)),
                              "let () = (let lf = %s in let pos = ((%s, %s), %s) in let ((r, _), _) = cartesian_to_spherical n pos in "
@@ -301,6 +337,24 @@ def run(chk):
             dsc.update({"u": u, "v": v, "trench_fraction": t, "spec": spec})
             viol.append(("membership differs from the definition (signed distance within truncation/thickness, along-surface "
                          "distance within the total length, foot between the end coordinates, depth within min/max)", dsc))
+    # membership as a user gets it (shortcuts on) must be the membership of the definition (shortcuts off = the model, bit for bit)
+    seen_n = set()
+    ninside = 0
+    for i_def, i_usr in normal_pairs:
+        a_, b_ = common.parse_vec(impl[i_def]), common.parse_vec(impl[i_usr])
+        if a_ is not None and a_[0] >= 0:
+            ninside += 1
+        if impl[i_def] != impl[i_usr]:
+            w_ = id(cs.describe(i_usr).get("world"))
+            if w_ in seen_n:
+                continue
+            seen_n.add(w_)
+            dsc = cs.describe(i_usr)
+            dsc.update({"as_built_by_a_user": impl[i_usr], "membership_definition (shortcuts off, = model)": impl[i_def]})
+            viol.append(("membership differs from the definition in the world as a user builds it: a point that satisfies the four clauses "
+                         "is not in the feature (tag/composition %s instead of %s)" % (impl[i_usr][:40], impl[i_def][:40]), dsc))
+    chk.counters["membership queries repeated on the world as built by a user"] = len(normal_pairs)
+    chk.counters["of those inside the feature"] = ninside
     chk.counters["worst distance discrepancy (m)"] = worst
     chk.counters["extracted specification vs python transcription mismatches"] = oracle_mismatch
     if oracle_mismatch:
